@@ -348,8 +348,11 @@ class Scenario:
                     'v': {rng.choice(['u', 'v', 'w']): G.gen_value(rng, 2, 0.0)}}
         if r < 0.7:
             return {'op': 'get_session', 'sid': sid, 'ns': ns}
-        return {'op': 'session_block', 'sid': sid, 'ns': ns, 'k': rng.choice(['u', 'v', 'n']),
-                'v': G.gen_value(rng, 1, 0.0)}
+        op = {'op': 'session_block', 'sid': sid, 'ns': ns, 'k': rng.choice(['u', 'v', 'n']),
+              'v': G.gen_value(rng, 1, 0.0)}
+        if rng.random() < 0.25:
+            op['raise_inside'] = True      # the application raises inside the block, after the mutation
+        return op
 
     def g_lost(self):
         if not self.open:
